@@ -5,9 +5,18 @@ use crate::monitor::MonitorConfig;
 use crate::thread::pool::{Message, Thread};
 
 use std::panic;
+#[cfg(not(humphrey_verif))]
 use std::sync::mpsc::{Receiver, Sender};
+#[cfg(humphrey_verif)]
+use crate::verif::sync::mpsc::{Receiver, Sender};
+#[cfg(not(humphrey_verif))]
 use std::sync::{Arc, Mutex};
+#[cfg(humphrey_verif)]
+use crate::verif::sync::{Arc, Mutex};
+#[cfg(not(humphrey_verif))]
 use std::thread::{panicking, spawn, JoinHandle};
+#[cfg(humphrey_verif)]
+use crate::verif::thread::{panicking, spawn, JoinHandle};
 
 /// Marker struct to detect thread panics.
 pub struct PanicMarker(pub usize, pub Sender<usize>);
